@@ -98,6 +98,16 @@ func harnessFiles(repo, pkgKey, prop string) map[string]string {
 	return m
 }
 
+// droppedHarnessFiles: harness files left out because they did not compile against the tree under check.
+var droppedHarnessFiles []string
+
+func firstLine(s string) string {
+	if i := strings.IndexByte(s, '\n'); i >= 0 {
+		return s[:i]
+	}
+	return s
+}
+
 func loadProgram(repo, pkgKey, prop string) (*Program, error) {
 	if pkgKey == "agent" && prop == "C31" {
 		// the field-wise harness is generated from the current Config struct
@@ -114,28 +124,56 @@ func loadProgram(repo, pkgKey, prop string) (*Program, error) {
 		}
 		overlay[v] = b
 	}
-	cfg := &packages.Config{
-		Mode:       packages.LoadAllSyntax,
-		Dir:        repo,
-		BuildFlags: []string{"-tags=verif"},
-		Overlay:    overlay,
-		Env:        goEnv(),
-	}
-	pkgs, err := packages.Load(cfg, "./"+pkgDirs[pkgKey])
-	if err != nil {
-		return nil, err
-	}
-	var errs []string
-	packages.Visit(pkgs, nil, func(p *packages.Package) {
-		for _, e := range p.Errors {
-			errs = append(errs, e.Error())
+	var pkgs []*packages.Package
+	for attempt := 0; ; attempt++ {
+		cfg := &packages.Config{
+			Mode:       packages.LoadAllSyntax,
+			Dir:        repo,
+			BuildFlags: []string{"-tags=verif"},
+			Overlay:    overlay,
+			Env:        goEnv(),
 		}
-	})
-	if len(errs) > 0 {
-		if len(errs) > 10 {
-			errs = errs[:10]
+		var err error
+		pkgs, err = packages.Load(cfg, "./"+pkgDirs[pkgKey])
+		if err != nil {
+			return nil, err
 		}
-		return nil, fmt.Errorf("package load errors:\n%s", strings.Join(errs, "\n"))
+		var errs []string
+		packages.Visit(pkgs, nil, func(p *packages.Package) {
+			for _, e := range p.Errors {
+				errs = append(errs, e.Error())
+			}
+		})
+		if len(errs) == 0 {
+			break
+		}
+		// A harness file that no longer compiles against this tree (it looked at a private identifier the
+		// tree has changed) is dropped, with a note that makes the run inconclusive unless another harness
+		// reports a violation; the remaining harness files still run.
+		dropped := false
+		if attempt < 4 {
+			for v := range overlay {
+				base := filepath.Base(v)
+				if !strings.HasPrefix(base, "zz_verif_c") {
+					continue // common / env / export files are needed by everything
+				}
+				for _, e := range errs {
+					if strings.Contains(e, base+":") {
+						delete(overlay, v)
+						delete(files, v)
+						droppedHarnessFiles = append(droppedHarnessFiles, base+": "+firstLine(e))
+						dropped = true
+						break
+					}
+				}
+			}
+		}
+		if !dropped {
+			if len(errs) > 10 {
+				errs = errs[:10]
+			}
+			return nil, fmt.Errorf("package load errors:\n%s", strings.Join(errs, "\n"))
+		}
 	}
 	prog, spkgs := ssautil.AllPackages(pkgs, ssa.InstantiateGenerics)
 	prog.Build()
@@ -377,6 +415,10 @@ func cmdCheck(args []string) int {
 			rep.Fatal = append(rep.Fatal, err.Error())
 			continue
 		}
+		for _, d := range droppedHarnessFiles {
+			rep.Fatal = append(rep.Fatal, "harness file left out, it does not compile against this tree (its harnesses were not run): "+d)
+		}
+		droppedHarnessFiles = nil
 		hs := findHarnesses(pr, *prop, *tier)
 		if len(hs) == 0 {
 			rep.Fatal = append(rep.Fatal, "no harness found for "+*prop+" in "+pk)
